@@ -179,10 +179,18 @@ where
 	}
 
 	/// Trims from the start of the capture buffer so the next chunk will begin
-	/// at the specified reader offset.
+	/// at the start of the line containing the specified reader offset.
+	///
+	/// The first token of an implicit document may be indented, and that
+	/// indentation is significant to the lines that follow it, so the chunk
+	/// must keep it rather than starting at the token itself.
 	fn trim_to_offset(&mut self, offset: u64) {
-		let trim_len = usize::try_from(offset - self.captured_start_offset).unwrap();
-		self.captured_start_offset = offset;
+		let token_len = usize::try_from(offset - self.captured_start_offset).unwrap();
+		let trim_len = self.captured[..token_len]
+			.iter()
+			.rposition(|&b| b == b'\n')
+			.map_or(0, |i| i + 1);
+		self.captured_start_offset += trim_len as u64;
 		self.captured.drain(..trim_len);
 	}
 
